@@ -183,7 +183,9 @@ def run(R, seed):
                                 for draw in range(draws):
                                     rng = random.Random("%d|eqint|%s|%s|%s|%s|%s|%d" % (seed, eq, ua, ub, dt, kws, draw))
                                     arrays, scalars = value_arrays(dt, rng)
-                                    cases = [(vals, False) for _, vals in arrays] + ([([v], True) for v in scalars] if not draw else [])
+                                    # scalars (unyt_quantity): quick tier on the first unit combination only
+                                    first = (ua, ub) == (units_for(da, 1)[0], units_for(db, 1)[0])
+                                    cases = [(vals, False) for _, vals in arrays] + ([([v], True) for v in scalars] if not draw and (first or R.thorough) else [])
                                     for vals, scalar in cases:
                                         xf = np.array(vals, dtype=dt).astype("float64")
                                         y, cond = formula(eq, da, db, xf * sa, k, kw)
